@@ -161,3 +161,21 @@ PROPS["C12"] = {
         {"name": "TestKnown_C12_V2GroupCheck", "witness_only": True},
     ],
 }
+
+PROPS["C01"] = {
+    "level": "exploration",
+    "technique": "property-based testing (rapid): Dolev-Yao style attack scripts against two real conversations (mutation, duplication, reordering, cross-session injection, an impersonator built on the independent reference implementation) + exhaustive byte/truncation sweep of a handshake; omniscient-observer oracle evaluated after every step",
+    "level_text": "after every step of generated attack scripts each encrypted conversation's SSID must derive from an in-range DH value drawn in this run by a live party and the reported peer key must be the key that party signs with; exhaustive sweep of all four AKE messages, v2 and v3",
+    "level_note": "attackers are those the generator can express; cryptanalysis is out of scope; the adversary's DH values are learnt by the oracle from the reference party's own randomness",
+    "rule": ("ops: start by either/both sides, FIFO/out-of-order delivery, duplicate, drop, 12 kinds of mutation of an in-flight AKE message (bit/byte/truncate/extend, version/type, tags, g^y := {0,1,p-1,p,p+1,2,p-2}, length prefixes, MAC, inside the encrypted signature, splice of the recorded session's message), "
+             "injection of a recorded earlier session of the same long-term keys, attacker M running its own exchange against either victim in either role, to completion or abandoned, advertising key K_A/K_B/K_M while signing with K_M, also against already encrypted victims. "
+             "Oracle after every op for every encrypted party P: SSID == h2(0, Y^e) for an exponent e P drew and Y = g^e' of a live party X of this run (degenerate values, recorded-session values, adversary-chosen values or no match: violation); GetTheirKey fingerprint == key X signs with; "
+             "A and B sharing an SSID highlight complementary halves and can read each other's probe text at the end. Non-trivial: an attacker op touched an AKE message that was delivered and a Reveal-Signature/Signature was processed. "
+             "Sweep: honest handshake where message k is preceded by a copy with one byte ^01/^80/:=00/:=FF or truncated at every offset."),
+    "assumptions": COMMON_ASSUME,
+    "exhaustive_checks": ["C01sweep"],
+    "tests": [
+        {"name": "TestProp_C01_Attack", "quick": {"shards": 8, "checks": 100, "timeout": 500}, "thorough": {"shards": 16, "checks": 2500, "timeout": 3000}},
+        {"name": "TestProp_C01_Sweep", "kind": "plain", "quick": {"shards": 8, "timeout": 500}, "thorough": {"shards": 16, "timeout": 3000}},
+    ],
+}
